@@ -3,6 +3,7 @@ package main
 import (
 	"encoding/json"
 	"fmt"
+	"math"
 
 	"github.com/yaricom/goNEAT/v4/neat"
 	"github.com/yaricom/goNEAT/v4/neat/genetics"
@@ -122,6 +123,33 @@ func c09RunShape(c *Ctx, sh c09Shape, prefix []int, cnt map[string]int64) (x *Ex
 				r.violateShape(sh, "parents-missing", fmt.Sprintf("species %d has %d organisms available as parents, %d were not marked for elimination", s.Id, len(s.Organisms), left))
 			}
 		}
+		if sh.Stag != 1 {
+			// species with a zero quota do not reproduce: a species whose members' expected offspring
+			// (floor with carried fractions in species order) give it no offspring has left the
+			// population before babies are handed out - whatever the stolen pool does afterwards
+			totalExp := 0.0
+			for _, o := range pre.orgs {
+				totalExp += o.ExpectedOffspring
+			}
+			if totalExp > 0.5 {
+				still := map[*genetics.Species]bool{}
+				for _, s := range pop.Species {
+					still[s] = true
+				}
+				cum, prevLo, prevHi := 0.0, 0, 0
+				for _, s := range pre.species {
+					for _, o := range pre.members[s] {
+						cum += o.ExpectedOffspring
+					}
+					lo, hi := int(math.Floor(cum-1e-7)), int(math.Floor(cum+1e-7))
+					if lo == hi && prevLo == prevHi && lo-prevLo == 0 && still[s] {
+						r.violateShape(sh, "zero-quota-species-kept", fmt.Sprintf("species %d: its members' expected offspring give it no offspring (cumulative %.9g after %.9g before), yet it is still in the population when reproduction starts (quota now %d)", s.Id, cum, float64(prevLo), s.ExpectedOffspring))
+						break
+					}
+					prevLo, prevHi = lo, hi
+				}
+			}
+		}
 		if sh.Stag == 1 && pop.EpochsHighestLastChanged == 0 {
 			r.count("shapes_with_delta_coding")
 		}
@@ -201,7 +229,7 @@ func c09Shapes(c *Ctx) {
 				ageIdx[i] = v % len(c09AgeMenu)
 				v /= len(c09AgeMenu)
 			}
-			for fit := 0; fit <= numLandscapes+1; fit++ {
+			for _, fit := range []int{0, 1, 2, 3, 4, 5, 6, 7, 8, 9, 11} { // incl. an all-negative and a mixed-sign landscape
 				stolenHere := stolen
 				if c.Quick() && k == 4 && sizes[0]+sizes[1]+sizes[2]+sizes[3] == 12 {
 					stolenHere = []int{10}
